@@ -237,8 +237,48 @@ def run_zipf(case, ctx, mon):
     mon.nontrivial(True)
 
 
+def run_rowpair(case, ctx, mon):
+    """Two keys sharing a counter in exactly one chosen row are counted in different sketches with values just below a power
+    of two, merged (the shared counter crosses that power while the other rows do not), then saved and loaded through every
+    loader: both bounds must hold at every step."""
+    w, d, r = case["width"], case["depth"], case["row"]
+    cfg = {"kind": "linear", "width": w, "depth": d}
+    pr = prober(w, d)
+    pair = state.find_row_pair(pr, d, r, np.random.default_rng(case["seed"]), tries=120 if w > 2 else 60)
+    if pair is None:
+        mon.count("rowpair_not_constructible")
+        return
+    k1, k2 = pair
+    v1, v2 = case["values"]
+    a, b = state.make(cfg), state.make(cfg)
+    a.add(k1, v1)
+    b.add(k2, v2)
+    stranger = b"\xfe-never"
+    universe = [k1, k2, stranger]
+    cells = {k: pr.cells(k) for k in universe}
+    ga, gb = Counter({k1: v1}), Counter({k2: v2})
+    mon.api(a.merge, b)
+    ga = ga + gb
+    check_all(mon, a, ga, universe, cells, w, d, "rowpair: merge")
+    for shm in (False, True):
+        for via in (False, True):
+            c = mon.api(state.save_load, a, "linear", shm, via)
+            check_all(mon, c, ga, universe, cells, w, d, f"rowpair: save+load shm={shm} via_module={via}")
+            c.add(k1, 1)
+            g2 = ga + Counter({k1: 1})
+            check_all(mon, c, g2, universe, cells, w, d, "rowpair: add after load")
+            del c
+    mon.count("rowpair_cases")
+    mon.seen("rowpair_row", r)
+    mon.nontrivial(True)
+
+
 def gen_cases(ctx):
     rng = ctx.rng("cases")
+    for r in range(4):
+        for vals in ((40000, 40000), (65535, 1), (200, 100), (2**24 - 1, 2), (2**31 - 5, 2**31 - 5), (65535, 65535)):
+            yield {"type": "rowpair", "width": pick(rng, [3, 5, 8]), "depth": max(r + 1, pick(rng, [2, 4])), "row": r, "values": list(vals),
+                   "seed": int(rng.integers(0, 2**31))}
     for w in ([64] if ctx.quick else [pick(rng, [25, 64, 100, 500, 2500])]):
         yield {"type": "zipf", "width": w, "depth": 8, "n": 3, "vocab": 1000, "stream": 8000 if ctx.quick else 25000, "seed": int(rng.integers(0, 2**31))}
     if ctx.quick or ctx.shard < 4:
@@ -256,6 +296,8 @@ def run_case(case, ctx, mon):
         run_history(case, ctx, mon)
     elif case["type"] == "zipf":
         run_zipf(case, ctx, mon)
+    elif case["type"] == "rowpair":
+        run_rowpair(case, ctx, mon)
     else:
         run_exhaustive(case, ctx, mon)
 
@@ -277,4 +319,5 @@ def floors(mon, ctx):
     mon.floor("events in the saturating regime", mon.counters["events_in_saturating_regime"], 5)
     mon.floor("merges of unequal sketches", mon.counters["merges_of_unequal_sketches"], 20)
     mon.floor("save/load round trips", mon.counters["saveloads"], 5)
-    mon.floor("exhaustive configurations completed", mon.counters["exhaustive_configs_completed"], 4)
+    mon.floor("exhaustive configurations completed", mon.counters["exhaustive_configs_completed"], 4 if ctx.quick else 1)
+    mon.floor("row-pair merge+save/load cases", mon.counters["rowpair_cases"], 12)
